@@ -1115,6 +1115,7 @@ func (ro *RedisOutput) sendCmdsBatch(replayWait usync.WaitCloser, conn client.Re
 				length += len(item.Args[i].([]byte))
 			}
 
+			prevOffset := lastOffset
 			lastOffset = item.Offset
 			if item.Cmd == "ping" { // skip ping command, keepaliveTicker handle it[multi/exec, ping issue for cluster]
 				continue
@@ -1124,7 +1125,13 @@ func (ro *RedisOutput) sendCmdsBatch(replayWait usync.WaitCloser, conn client.Re
 			if transactionMode {
 				if needFlush {
 					// flush previous data
-					err := sendFunc(transactionBatch, shouldUpdateCP, lastOffset)
+					// a SELECT/MULTI barrier is not part of the flushed batch, so the
+					// checkpoint written with it must not cover the barrier itself
+					flushOffset := lastOffset
+					if txnStatus != txnStatusCommit {
+						flushOffset = prevOffset
+					}
+					err := sendFunc(transactionBatch, shouldUpdateCP, flushOffset)
 					if err != nil {
 						return err
 					}
